@@ -89,7 +89,9 @@ def build_profile(cands, ballots, names=None, cand_order=None):
     bl = []
     for b in ballots:
         rk = tuple(frozenset(nm[c] for c in pos) for pos in b["r"])
-        bl.append(Ballot(ranking=rk, weight=F(b["w"][0], b["w"][1])))
+        # a ranked ballot may also carry scores ("s"); ranking rules are documented to read the ranking only
+        kw = {"scores": {nm[c]: F(v[0], v[1]) for c, v in b["s"]}} if b.get("s") else {}
+        bl.append(Ballot(ranking=rk, weight=F(b["w"][0], b["w"][1]), **kw))
     order = cand_order or list(cands)
     return PreferenceProfile(ballots=tuple(bl), candidates=tuple(nm[c] for c in order))
 
